@@ -68,7 +68,7 @@ func c01World(tp *Tape, env *Env) (*Plan, *Violation) {
 	}
 	layout := genLayout(tp)
 	w := World{Readers: distribute(tp, prog, layout, 3)}
-	w.Host = HostSpec{Storer: []string{"default", "mem", "rec"}[tp.Int(0, 2, "storer")], Probes: true, Seed: "s1", Handlers: cfg.Handlers}
+	w.Host = HostSpec{Storer: []string{"default", "mem", "rec", "cells"}[tp.Int(0, 3, "storer")], Probes: true, Seed: "s1", Handlers: cfg.Handlers}
 	if len(cfg.Handlers) > 0 {
 		w.Host.Scheds = drawScheds(tp, true)
 	}
